@@ -62,7 +62,12 @@ class Table:
             self.raw_name = escape_identifier_name(table_name)
             if schema:
                 warnings.warn("Name is in schema.table format, schema param is ignored")
-        self.alias = escape_identifier_name(kwargs.pop("alias", self.raw_name))
+        # raw_name is normalised already: a second pass would fold the case of a quoted name
+        self.alias = (
+            escape_identifier_name(kwargs.pop("alias"))
+            if "alias" in kwargs
+            else self.raw_name
+        )
 
     def __str__(self):
         return f"{self.schema}.{self.raw_name}"
